@@ -32,6 +32,11 @@ def gen_cases(rng, n, n_empty):
         cases.append({"seed": rng.randrange(1 << 30), "stream": "injected-structures", "gap": rng.choice([0.5, 1.0, 2.0]), "mms": rng.choice([1, 2, 3]),
                       "force_empty": None, "inject": [[rng.choice([1, -1]), rng.choice([0.05, 0.2, 0.35, 0.6]), rng.random() < 0.4]
                                                       for _ in range(rng.choice([1, 2]))], "noisy": k % 2 == 1})
+    for k in range(max(2, n // 6)):
+        # the structure the evidence really fits is the WORSE-scored one, by more than the gap: its major candidates still pass the
+        # major-stage filter when the better-scored structure's alleles fit badly (the filter is relative to the best inherited score)
+        cases.append({"seed": rng.randrange(1 << 30), "stream": "injected-structures", "gap": rng.choice([0.0, 0.1, 0.1]), "mms": rng.choice([1, 2]),
+                      "force_empty": None, "inject": [[rng.choice([1, -1]), rng.choice([0.2, 0.35, 0.6]), True]], "noisy": k % 2 == 1})
     for k in range(n // 2):
         # the candidates of a real run (several structures, majors, minors) replayed with SYNTHETIC stage scores: every relation between
         # structure, major and minor scores occurs (ties, reorderings by the rescaling, candidates exactly at the gap)
@@ -237,6 +242,19 @@ def _run_case(case):
             for m in majors:      # the stage as a whole was forced to return nothing
                 m["minors"] = []
         out["majors"] = majors
+        # structures the structure stage returned but the run never handed to the major stage: what would the major stage have said?
+        # (outside the recorder: the real estimate_major, on the same Coverage object)
+        out["unvisited"] = []
+        called = {cn_idx[id(c)] for c, _, _ in rec.major_calls}
+        if not case["force_empty"] and rec.gene is not None and rec.coverage is not None:
+            import aldy.major
+            for i, c in enumerate(rec.cn):
+                if i not in called:
+                    try:
+                        ms = aldy.major.estimate_major(rec.gene, rec.coverage, c, "any")
+                        out["unvisited"].append({"cn": i, "raw": [float(m.score) for m in ms], "names": [m._solution_nice() for m in ms]})
+                    except Exception as ex:     # noqa
+                        out["unvisited"].append({"cn": i, "raw": [], "names": [], "error": str(ex)[:80]})
         out["final"] = None
         if final is not None:
             out["final"] = [{"id": by_list[id(s.solution)], "name": s._solution_nice(), "score": float(s.score),
@@ -277,6 +295,15 @@ def predicate(case, r, K):
     best_major = min(carried.values())
     must = {j for j, s in carried.items() if s - best_major - gap < prec - TOL}
     may = {j for j, s in carried.items() if s - best_major - gap < prec + TOL}
+    # every structure the structure stage returned takes part: a structure that was never handed to the major stage although one of its
+    # major solutions (real estimate_major, computed after the run) lies within the gap of the best inherited major score is a
+    # candidate the statement requires and the run lost
+    for u in r.get("unvisited", []):
+        inh = [x + (cns[u["cn"]]["score"] - min_cn) for x in u["raw"]]
+        if inh and min(inh) - min(best_major, min(inh)) - gap < prec - TOL:
+            fails.append(("selected-exact", {"stage": "major", "structure": cns[u["cn"]]["name"], "its best inherited major score": min(inh),
+                                             "best inherited major score of the visited structures": best_major, "gap": gap},
+                          "the structure was never handed to the major stage"))
     passed = set(r["minor_in"])
     if not (must <= passed <= may):
         fails.append(("selected-exact", {"stage": "major", "must": sorted(must), "may": sorted(may)}, sorted(passed)))
